@@ -235,6 +235,44 @@ CHECKS['C07'] = {
     'level_note': 'Trusted: the allocator shim and its ledger. Not covered: states beyond the size bounds of the underlying explorations.',
 }
 
+
+def grid_jobs(prefix, harness, repo_srcs, tier, nshards=16, defs=None, libs=None, extra=None, san='', build=None, deadline=None, opt=None):
+    jobs = []
+    for i in range(nshards):
+        j = {'name': '%s-%s%d' % (prefix, 's' if nshards > 1 else '', i) if nshards > 1 else prefix, 'build_name': build or prefix, 'harness': [harness], 'repo_srcs': repo_srcs,
+             'defs': defs or [], 'san': san, 'args': ['--tier', tier, '--shard', i, '--nshards', nshards] + (extra or []) + (['--deadline', deadline] if deadline else [])}
+        if libs:
+            j['libs'] = libs
+        if opt:
+            j['opt'] = opt
+        jobs.append(j)
+    return jobs
+
+
+def c19_jobs(tier):
+    src = ['src/math.c', 'src/a.c']
+    jobs = grid_jobs('bits', 'harness/bits.cpp', src, tier, 16)
+    # the same sources with the header's inline bodies selected, and one sanitizer shard on a reduced sweep is not needed: the sweeps are pure integer code
+    if tier == 'thorough':
+        jobs += grid_jobs('bits-inline', 'harness/bits.cpp', src, tier, 16, defs=['-DA_HAVE_INLINE=1'])
+    return jobs
+
+
+CHECKS['C19'] = {
+    'title': 'integer square root, gcd/lcm, bit reversal, byte order', 'level': 'exploration', 'engine': 'grid', 'jobs': c19_jobs,
+    'rule': ('complete enumeration, sharded over 16 processes, executed against the real functions compiled from /repo (through the out-of-line symbols of src/a.c; thorough additionally with the header inline bodies): '
+             'a_u32_sqrt on ALL 2^32 inputs (r^2 <= x < (r+1)^2 in 64-bit arithmetic); a_u64_sqrt on k^2-1, k^2, k^2+1, k^2+k for every k below 2^24 (quick; every k below 2^32 in thorough) plus the top 2^22 k, every m*2^e (m<2^16, e<=48) and 2^64-1-j; '
+             'gcd/lcm of both widths on all pairs below 2048 (4096 thorough) against Stein\'s binary gcd, brute-force common divisors below 256, and all pairs of a special set (0, 1, m*2^e, 2^k+-1, primes near 2^16/2^32/2^64, max, operands whose Euclid remainders exceed 2^32); '
+             'bit reversal on all u8, all u16, ALL 2^32 u32 and a u64 lattice (<=2 bits set, complements, m*2^e) against a table reference, with involution; little/big-endian set/get on all u16 x 8 offsets, ALL 2^32 u32 and a u64 lattice x 8 unaligned offsets: '
+             'byte layout equals explicit shifts, get(set(x)) == x, cross-order load equals the byte-swapped value, neighbouring bytes untouched. distinct_nontrivial counts inputs other than the trivial ones (0, 1, all-ones, equal operands); all enumerated inputs are distinct by construction.'),
+    'assumptions': ['host is x86-64 little-endian; order independence is checked as "layout equals explicit shifts", which does not depend on host order by construction',
+                    'only the Newton (bit-scan) variant of the square roots is compiled on this host; the digit-by-digit fallback is not reachable with gcc/clang',
+                    '64-bit domains are covered on the stated lattices, not completely'],
+    'design_ref': '§4.C19', 'technique': 'complete enumeration of the 32-bit input domains (2^32 inputs per function) and stated 64-bit lattices against exact integer references',
+    'level_text': 'The 32-bit square root, 32-bit bit reversal and 32-bit byte-order accessors are decided completely (all 2^32 inputs); the 64-bit functions and gcd/lcm are checked on lattices containing every place where the result can change (perfect squares +-1, k^2+k, powers of two +-1, operands forcing wide remainders, every byte value in every byte position).',
+    'level_note': 'Trusted: __int128 arithmetic of the compiler. Not covered: 64-bit inputs off the lattices; hosts with other byte order.',
+}
+
 # ---------------------------------------------------------------- manifest texts
 CHECKS['C01'].update({
     'design_ref': '§4.C01', 'technique': 'explicit-state BFS to a fixpoint over the real src/avl.c (size-bounded, unbounded history length), lock-step reference set, API-replay conformance of every state',
